@@ -690,24 +690,8 @@ func main() {
 		n, g := digest(out)
 		return step{Frame: true, Len: n, Dg: g, data: out}
 	}
-	for i := 0; i < nenc; i++ {
-		var c cdc
-		switch rng.Intn(5) {
-		case 0, 1:
-			c = cdc{Kind: "pp", BE: rng.Bool(), W: []int{1, 2, 4, 8}[rng.Intn(4)], Adj: []int{0, 0, 1, -1, 4, -4, 300}[rng.Intn(7)], Incl: rng.Bool()}
-		case 2:
-			c = genLF(rng)
-		case 3:
-			c = cdc{Kind: "vi", Max: []int{10, 127, 128, 300, 70000}[rng.Intn(5)]}
-		default:
-			c = cdc{Kind: "dl", Max: 1024, Delim: []byte{'\r', '\n'}, StripD: true}
-		}
-		n := lenChoices(rng, c)
+	doEnc := func(c cdc, n int, carrier int) {
 		body := payloadPiece(rng, n)
-		carrier := rng.Intn(6)
-		if c.Kind == "dl" && carrier == 5 {
-			carrier = 0
-		}
 		res := encode(c, body, carrier)
 		meta.Evaluations++
 		meta.Count("encoder", c.Kind)
@@ -741,6 +725,43 @@ func main() {
 			}
 			meta.Distinct(fmt.Sprint("enc", c, n, carrier))
 		}
+	}
+	// deterministic sweep of the prepender around the capacity of its length field (widths 1 and 2):
+	// the header value n + adjustment (+ width when it includes itself) crosses 2^(8w)-1 exactly here
+	for _, w := range []int{1, 2} {
+		capv := 1<<(8*uint(w)) - 1
+		for _, incl := range []bool{false, true} {
+			for _, adj := range []int{0, 1, -1} {
+				extra := adj
+				if incl {
+					extra += w
+				}
+				for _, v := range []int{capv - 1, capv, capv + 1} {
+					if n := v - extra; n >= 0 {
+						doEnc(cdc{Kind: "pp", BE: w == 1 || incl, W: w, Adj: adj, Incl: incl}, n, 0)
+					}
+				}
+			}
+		}
+	}
+	for i := 0; i < nenc; i++ {
+		var c cdc
+		switch rng.Intn(5) {
+		case 0, 1:
+			c = cdc{Kind: "pp", BE: rng.Bool(), W: []int{1, 2, 4, 8}[rng.Intn(4)], Adj: []int{0, 0, 1, -1, 4, -4, 300}[rng.Intn(7)], Incl: rng.Bool()}
+		case 2:
+			c = genLF(rng)
+		case 3:
+			c = cdc{Kind: "vi", Max: []int{10, 127, 128, 300, 70000}[rng.Intn(5)]}
+		default:
+			c = cdc{Kind: "dl", Max: 1024, Delim: []byte{'\r', '\n'}, StripD: true}
+		}
+		n := lenChoices(rng, c)
+		carrier := rng.Intn(6)
+		if c.Kind == "dl" && carrier == 5 {
+			carrier = 0
+		}
+		doEnc(c, n, carrier)
 	}
 
 	if args.Replay != "" {
